@@ -182,7 +182,8 @@ def run(prog: Program, L: Ledger) -> None:
         f = prog.lookup_method(afb, v.attr) if isinstance(v, ast.Attribute) else None
         if f is None:
             raise AnalysisError(f"scheme `{norm(k)}` does not resolve to a method")
-        tries = [s for s in f.body() if isinstance(s, ast.Try)]
+        f = flat(prog, f, afb)
+        tries = [s for s in walk_no_nested(f.node) if isinstance(s, ast.Try)]
         if len(tries) != 1:
             raise AnalysisError(f"{f.qualname}: expected one try/except around the committee lookup")
         tr = tries[0]
@@ -191,8 +192,12 @@ def run(prog: Program, L: Ledger) -> None:
             caught |= set(norm(h.type).replace("(", "").replace(")", "").replace(" ", "").split(",")) if h.type is not None else {"*"}
         L.check({"KeyError", "AttributeError"} <= caught or "*" in caught or "Exception" in caught, "R4", f"{f.qualname}:handlers", f.where,
                 f"fallback catches {sorted(caught)}: a calculator without committee results (KeyError) or without results (AttributeError) must fall back", "no committee data → exception instead of reference variance", ",".join(sorted(caught)))
+        # the value returned on the fallback path: `return e` in the handler, or `v = e` there with `return v` after the try
+        tail_ret = [s_ for s_ in f.body() if isinstance(s_, ast.Return) and isinstance(s_.value, ast.Name)]
         for h in tr.handlers:
             rets = [s for s in walk_no_nested(h) if isinstance(s, ast.Return)]
+            if not rets and tail_ret:
+                rets = [ast.copy_location(ast.Return(value=s_.value), s_) for s_ in walk_no_nested(h) if isinstance(s_, ast.Assign) and any(isinstance(t_, ast.Name) and t_.id == tail_ret[-1].value.id for t_ in s_.targets)]
             for r in rets:
                 n += 1
                 val = r.value
